@@ -50,12 +50,17 @@ CLAIMED = {
              'base); calls preserve the caller frame by the callee contract.', 'INV obligations at lemma exits, z3'),
     'C09': T('Operator and cast lemmas hold for all operand values (integer reasoning over the whole word, not a grid) in value, branch and defeat position, at the enumerated word sizes; '
              'halt_inversion and compare_map are exercised through the real bool_expr_branch/truth_is_defeat.', SIM),
-    'C10': T('Partial: no real generator method raises an internal exception on any well-typed abstract input used by the lemmas; grammar rules raise only ParserError; rendering functions '
-             'total for all bytes. Whole-compiler totality is not claimed (DESIGN 14).', 'NOERR obligations + pyvc raises-only contracts', PY_NOTE),
+    'C10': T('No real generator method raises an internal exception on any abstract input used by the lemmas (NOERR on every lemma); every grammar rule raises only ParserError; '
+             'lexer readers raise only LexerError on all inputs (incl. huge and malformed escapes); rendering functions total for all bytes. Diagnostics: every raise site of a '
+             'CompilerError is inventoried from the source, and for a witness corpus reaching the sites the error is located inside the source and renders; the CLI leaves no output '
+             'file on failure. Whole-compiler totality over all inputs is an induction on paper over these per-function contracts (DESIGN 14).',
+             'NOERR obligations + pyvc raises-only contracts + raise-site inventory with witness corpus', PY_NOTE),
     'C11': T('Contracts on the ladder ps_expr0..8/ps_expr and on bin_op (left fold for an arbitrary accumulated expression): operand rule, operator set = documented level, grouping. '
              'Round trip: bounded stand-in (all pairs and triples).', 'pyvc path exploration of the grammar rules', PY_NOTE),
-    'C13': T('Per-byte escape contract by complete enumeration, loop contract of _escape_bytes for an arbitrary prefix (pyvc), IntLiteral/directive rendering; array element layout and '
-             'string lookups through the C01 array lemmas.', 'enum (finite, exhaustive) + pyvc loop contract'),
+    'C13': T('Per-byte escape contract by complete enumeration, loop contract of _escape_bytes for an arbitrary prefix (pyvc), IntLiteral/directive rendering; constant arrays: '
+             'frame (reads/modifies) contract of add_global_array/label_for_string/add_label, content-and-length of every constant array int/byte/bool of length 0..40 read back with '
+             'the stated assembler grammar, non-interference of pairs, string table; element layout and string lookups through the C01 array lemmas.',
+             'enum (finite, exhaustive) + pyvc loop contract + frame clause'),
     'C14': T('For every foldable operator and literal cast the real simplify()/cast() text is executed on symbolic unbounded integers and proved to commute with the run-time operation '
              'on wrapped operands; out-of-range operands are recorded known findings (folding without word size).', 'pyvc + z3 (integers)', PY_NOTE),
     'C15': T('Every lemma is discharged for unchecked builds as well, against the same reference semantics restricted to fault-free runs.', SIM),
@@ -63,10 +68,21 @@ CLAIMED = {
              'executes after a body that cannot fall through.', 'enum over mode sets x symbolic leaves'),
     'C17': T('Library text: write(bool), byte/string loops (loop contracts with ghost index), write(int) (entry/sign/minimum, digit-loop step for every digit count, hand-over), '
              'dispatch by storage through the call lemmas.', 'loop contracts on the real stdlib text, z3'),
+    'C07': T('Contracts on the real typing functions: coercibility lattice (Type.coercible / literal shrinkability incl. folded arithmetic) against the documented table by complete '
+             'enumeration over all type pairs and literal shapes; every statement rule (declaration, assignment, inc-assignment, return, call arity/types, const-ness, shadowing, '
+             'duplicates, nested/empty arrays, casts) accept-iff-documented over an enumerated rule x context domain; overload resolution (FuncCall.evaluate interpreted path-wise with '
+             'coercible answered by an oracle, all answers): exact match first, else first declared overload every argument coerces to.',
+             'complete enumeration of the finite type lattice and rule domain on the real evaluate()/coercible() + pyvc path exploration of FuncCall.evaluate', PY_NOTE),
+    'C12': T('Token regular expressions of the real lexer proved equivalent (automata over a class-representative alphabet) to the documented token grammar; keyword/operator tables '
+             'and every escape by complete enumeration; read_int value contract for all digit strings in all bases (z3 integers + enumeration of digit tables); scanner span '
+             'arithmetic; lex span protocol (every token span is exactly the consumed text); source lines end at line feeds only; readers raise only LexerError. Longest-match '
+             'and layout independence: bounded stand-in (all operator-character strings up to a stated length; layouts from a stated alphabet), labelled bounded.',
+             'regex automata equivalence + enum + z3 string/integer obligations on the real lexer text', PY_NOTE),
+    'C18': T('Determinism: syntactic reads clause over the generator/typechecker (no iteration over sets or hash-ordered containers, no id()/hash()/time/random/environment reads in '
+             'functions that emit) plus bounded cross-hash-seed compilation; lint: the lint option is read only at sites that raise; stack size: stack_size is read only in the '
+             'entry/overflow guards (monotone); word size: every simulation lemma is discharged at w=2 and again at wider words (w=3 in quick for scale-sensitive families; '
+             '3,4,8 in thorough) against the same reference semantics.',
+             'reads-clause contracts (syntactic frame) + simulation lemmas at several word sizes', PY_NOTE),
 }
 
-NOT_CLAIMED = {
-    'C07': 'typechecker contracts not built yet in this round',
-    'C12': 'lexer contracts not built yet in this round',
-    'C18': 'determinism/option contracts not built yet in this round',
-}
+NOT_CLAIMED = {}
